@@ -1,11 +1,13 @@
 """C19 - number encodings used by the file formats are lossless."""
+import json
 import math
+import os
 import struct
 from fractions import Fraction
 
 from hypothesis import strategies as st
 
-from common import Violation
+from common import Violation, Inconclusive
 import oasnum as on
 
 LEVEL = "exploration"
@@ -477,10 +479,135 @@ def plist_case(draw):
     return {"points": pts, "closed": closed}
 
 
-TARGETS = ("gdstk_driver", "gdstk_driver_gcc")
+TARGETS = ("gdstk_driver", "gdstk_driver_gcc", "fuzz_oasis_numbers")
+
+
+# ---------------------------------------------------------------- coverage-guided stage (libFuzzer)
+# driver/fuzz_oasis_numbers.cpp compiles src/oasis.cpp into a libFuzzer target whose oracle is a second set of reference codecs
+# (unsigned __int128 arithmetic, written in the target). Each worker runs one campaign (its own PRNG value, fresh corpus seeded with
+# a few valid encodings); a crash-* artifact (oracle trap or sanitizer report) is minimised by libFuzzer and becomes an ordinary
+# replay case {"fuzz_hex": ...}. slow-unit / timeout / oom artifacts are load noise and are ignored.
+FUZZ_SEEDS = ["0000", "00ffffffffffffffffff01", "017f", "01ffffffffffffffffff01", "0206", "03fd7f", "04f2ffffffffffffff3f", "0403800104",
+              "050005", "05037b", "0504020d", "0507000000000000f03f", "0506000080bf", "06" + "000000000000d03f", "06" + "555555555555d53f",
+              "07" + "ff" * 7 + "7f" + "01" + "00" * 7 + "0000"]
+
+
+def fuzz_exe(ctx):
+    return os.path.join(ctx.build_dir, "fuzz_oasis_numbers")
+
+
+def fuzz_run_file(ctx, raw):
+    """one input through the fuzz target; returns None when it passes, else the oracle / sanitizer message"""
+    import subprocess
+    p = ctx.path("fuzz_input_%d.bin" % ctx.worker)
+    with open(p, "wb") as fh:
+        fh.write(raw)
+    env = dict(os.environ, ASAN_OPTIONS="detect_leaks=0:abort_on_error=0", UBSAN_OPTIONS="print_stacktrace=0:halt_on_error=1")
+    env.pop("FUZZ_STATS", None)
+    try:
+        r = subprocess.run([fuzz_exe(ctx), p], stdout=subprocess.PIPE, stderr=subprocess.STDOUT, env=env, timeout=120)
+    except subprocess.TimeoutExpired:
+        raise Inconclusive()
+    if r.returncode == 0:
+        return None
+    out = r.stdout.decode("utf-8", "replace")
+    for line in out.splitlines():
+        if line.startswith("ORACLE:") or "runtime error:" in line or "ERROR: AddressSanitizer" in line:
+            return line.split("; input=")[0][:300]
+    return "fuzz target exit %d: %s" % (r.returncode, out[-300:])
+
+
+def check_fuzz(ctx, case):
+    raw = bytes.fromhex(case["fuzz_hex"])
+    msg = fuzz_run_file(ctx, raw)
+    ctx.stats.count("fuzz_replayed_inputs")
+    if msg:
+        raise Violation("fuzz_oasis_numbers: " + msg, case, "the reference codec's value / NoError", msg)
+
+
+def fuzz_stage(ctx):
+    import subprocess, glob, shutil
+    q = ctx.tier == "quick"
+    runs = 150000 if q else 12000000
+    cdir = ctx.path("fuzz_corpus")
+    adir = ctx.path("fuzz_artifacts")
+    shutil.rmtree(cdir, ignore_errors=True)
+    shutil.rmtree(adir, ignore_errors=True)
+    os.makedirs(cdir)
+    os.makedirs(adir)
+    # odd workers start from a few valid encodings, even workers from an empty corpus (the two behave differently)
+    if ctx.worker % 2 == 1:
+        for i, h in enumerate(FUZZ_SEEDS):
+            with open(os.path.join(cdir, "seed_%02d" % i), "wb") as fh:
+                fh.write(bytes.fromhex(h))
+    stats = ctx.path("fuzz_stats.json")
+    env = dict(os.environ, FUZZ_STATS=stats, ASAN_OPTIONS="detect_leaks=0:abort_on_error=0", UBSAN_OPTIONS="print_stacktrace=0:halt_on_error=1")
+    cmd = [fuzz_exe(ctx), "-runs=%d" % runs, "-seed=%d" % (ctx.seed * 1000 + ctx.worker + 1), "-max_len=48", "-len_control=0",
+           "-artifact_prefix=" + adir + "/", "-print_final_stats=1", "-timeout=60", cdir]
+    try:
+        r = subprocess.run(cmd, stdout=subprocess.PIPE, stderr=subprocess.STDOUT, env=env, timeout=3600)
+        out = r.stdout.decode("utf-8", "replace")
+    except subprocess.TimeoutExpired:
+        ctx.stats.count("fuzz_campaigns_inconclusive")
+        return None
+    try:
+        with open(stats) as fh:
+            fs = json.load(fh)
+        ctx.stats.count("fuzz_executions", fs["executions"])
+        ctx.stats.count("fuzz_nontrivial_executions", fs["nontrivial"])
+        ctx.stats.count("fuzz_overflow_encodings", fs["overflow_cases"])
+        ctx.stats.count("fuzz_values_reencoded", fs["reencoded"])
+        ctx.stats.count("fuzz_incomplete_encodings_skipped", fs["skipped_incomplete"])
+        ctx.stats.count("fuzz_nonfinite_reals_not_judged", fs.get("nonfinite_not_judged", 0))
+        for i, n in enumerate(fs["by_selector"]):
+            ctx.stats.count("fuzz_selector_%d_%s" % (i, ("uint", "int", "2delta", "3delta", "gdelta", "real_dec", "real_enc", "int_enc")[i]), n)
+        if ctx.worker < 2:
+            ctx.stats.extra.setdefault("fuzz_samples", "")
+            ctx.stats.extra["fuzz_samples"] += " ".join(fs["samples"]) + " "
+    except (OSError, ValueError):
+        pass
+    import re as _re
+    m = _re.findall(r"cov: (\d+) ft: (\d+) corp: (\d+)", out)
+    if m:
+        ctx.stats.maximum("fuzz_edges_covered", int(m[-1][0]))
+        ctx.stats.maximum("fuzz_features", int(m[-1][1]))
+        ctx.stats.maximum("fuzz_corpus_units", int(m[-1][2]))
+    ctx.stats.count("fuzz_campaigns")
+    crashes = sorted(glob.glob(os.path.join(adir, "crash-*")) + glob.glob(os.path.join(adir, "leak-*")))
+    if not crashes:
+        if r.returncode != 0 and not glob.glob(os.path.join(adir, "*")):
+            ctx.stats.count("fuzz_campaigns_inconclusive")
+        return None
+    with open(crashes[0], "rb") as fh:
+        raw = fh.read()
+    # shrink with libFuzzer's own minimiser (bounded by executions, not by time)
+    mpath = ctx.path("fuzz_min.bin")
+    try:
+        subprocess.run([fuzz_exe(ctx), "-minimize_crash=1", "-runs=20000", "-exact_artifact_path=" + mpath, crashes[0]],
+                       stdout=subprocess.DEVNULL, stderr=subprocess.DEVNULL, env=env, timeout=300)
+        if os.path.exists(mpath):
+            with open(mpath, "rb") as fh:
+                small = fh.read()
+            if small and fuzz_run_file(ctx, small):
+                raw = small
+    except (subprocess.TimeoutExpired, OSError):
+        pass
+    msg = fuzz_run_file(ctx, raw)
+    if not msg:
+        ctx.stats.count("flaky_not_reproduced")
+        return None
+    v = Violation("fuzz_oasis_numbers: " + msg, {"fuzz_hex": raw.hex()}, "the reference codec's value / NoError", msg)
+    v.test = "fuzz"
+    return v
 
 
 def check_both(ctx, case):
+    if "fuzz_hex" in case:
+        return check_fuzz(ctx, case)
+    _check_both(ctx, case)
+
+
+def _check_both(ctx, case):
     """the codecs are header-level arithmetic whose meaning may depend on the compiler (order of evaluation of arguments,
     conversions): every case is run on the clang build and on a g++ build of the same sources (the repository's own compiler)"""
     check_case(ctx, case)
@@ -547,6 +674,9 @@ def run_worker(ctx):
         v = ctx.hypothesis(check_both, strat, ctx.share(total), name)
         if v:
             vs.append(v)
+    v = fuzz_stage(ctx)
+    if v:
+        vs.append(v)
     return vs
 
 
